@@ -113,6 +113,28 @@ add("F101", "C13", "fixed", "'0xAF00' was 0 XAF followed by 00: the money lexer 
 add("F100b", "C14", "fixed", "'1/1/2040 as unix' printed 2147483647: raw timestamps were printed through 'as i32'",
     {"sub": "unix", "case": {"shape": {"DateAsUnix": [{"y": 2040, "m": 1, "d": 1, "spell": {"Slash": [False, False]}}, 0, 0]}, "default_tz": None}}, commit="cd1480b")
 
+# ---- C03 / C04 / C08 / C16 / C17 ---------------------------------------------------------------
+def nm(i): return {"Name": [i, 0, 0]}
+def lt(s): return {"Lit": s}
+add("F30", "C03", "fixed", "'du = 90 seconds' / 'du as minutes' stayed 1 minute 30 seconds: as_duration ignored variable sources",
+    {"sub": "programs", "case": {"stmts": [{"Assign": [3, 0, 0, {"One": lt("90 seconds")}]}, {"Use": {"Suffix": [nm(3), "as minutes"]}}]}}, commit="c8e7a0c")
+add("F31", "C03", "fixed", "'rent = 10 usd' / '-rent' was an unknown calculation: a leading sign was evaluated as '0 - x', which only works for plain numbers",
+    {"sub": "programs", "case": {"stmts": [{"Assign": [3, 0, 0, {"One": lt("10 usd")}]}, {"Use": {"Neg": nm(3)}}]}}, commit="52a3dc7")
+add("F40", "C04", "fixed", "set_text did not reset the session cursor: a 1-line text after a 3-line text gave status=false and no slots",
+    {"sub": "session-history", "case": {"sessions": 1, "ops": [[0, "x = 5\nx + 1\nx * 2"], [0, "x"]], "extra_execute": False}}, commit="a9cf95d")
+def simple_line(toks, src="C02", lang="en"): return {"prelude": [], "line": {"toks": toks}, "lang": lang, "tz": None, "src": src}
+def tnum(v, space=1): return {"pre": "", "num": {"v": float(v), "sign": 0, "group": False}, "post": "", "class": "Number", "space": space}
+def tword(w, cls, space=1): return {"pre": w, "num": None, "post": "", "class": cls, "space": space}
+add("F70b", "C08", "fixed", "'2,5 km to m' under ',' decimal gave 25000 but '2.5 km to m' under '.' decimal 2500: conversion formulas were read with the user's separators",
+    {"sub": "separators", "case": {"g": simple_line([tnum(2.5, 0), tword("km", "Unit"), tword("to", "Conn"), tword("m", "Unit")], "C12"), "a": 0, "b": 1}}, commit="103ff5e")
+add("F120", "C16", "fixed", "'5 # jan 2020' was the 5th of January: the month lexer ran before the comment lexer",
+    {"sub": "noise", "case": {"g": simple_line([tnum(5, 0)]), "rw": {"extra": [], "comment": " jan 2020", "cases": []}}}, commit="46657ee")
+def free(t): return {"sub": "spans", "case": {"input": {"Free": ["en", t]}}}
+add("F130", "C17", "fixed", "'şğü 5' reported Number (4, 8) in a 5-character line: the end of a token at the end of the line was a byte offset", free("şğü 5"), commit="e281d10")
+add("F131", "C17", "fixed", "'5 € + 3 €': the collision test compared byte offsets with character offsets, tokens after multi-byte characters were dropped or overlapped", free("5 € + 3 €"), commit="e281d10")
+add("F132", "C17", "fixed", "'ŞŞŞ 12 may' reported Month (7, 13): month and zone lexers took offsets from a case-mapped copy of the line", free("ŞŞŞ 12 may\nİ İ 1 january 1\nıııı 15:00 EST"), commit="4cf889b")
+add("F120b", "C17", "fixed", "'5 # jan 2020': overlapping Month and Comment tokens", free("5 # jan 2020"), commit="46657ee")
+
 EXTRA = "tools/kf_extra.py"
 try:
     exec(open("/verif/" + EXTRA).read())
